@@ -14,6 +14,7 @@ from facts import *
 # Functions of the reviewed tree that no longer exist (a wrapper inlined into its callers, or renamed), with the gates and state changes
 # every ok path of theirs passed (from the R9 baseline) and the callers they had. A rule that names such a function as a required call or
 # as a sink is evaluated on what the function did: "add_block was called" becomes "Batch::save_block was called".
+KNOWN_FNS = set()  # functions of the reviewed tree (baseline/functions.json)
 VANISHED = {}   # full key -> {"must": [short callee names], "callers": [role keys]}
 
 
@@ -35,10 +36,12 @@ def load_vanished(F, baseline_dir):
     """Fills VANISHED from baseline/functions.json and the per-property baselines."""
     import glob, json, os
     VANISHED.clear()
+    KNOWN_FNS.clear()
     try:
         known = json.load(open(os.path.join(baseline_dir, "functions.json")))
     except (OSError, ValueError):
         return
+    KNOWN_FNS.update(known)
     gone = [k for k in known if k not in F.fns and not re.search(r"#\d+$", k)]
     if not gone:
         return
@@ -444,6 +447,26 @@ class Ctx:
             if a in VANISHED:
                 allowed |= {c for c in VANISHED[a]["callers"]}
         extra = sorted(set(sites) - allowed)
+        if extra and KNOWN_FNS:
+            # a function the reviewed tree did not have, called only from inside the allowed set (an allowed function was split): it acts on
+            # their behalf. Anything that lets a caller outside the set in - directly or through another new function - is still reported.
+            def _on_behalf(k, depth=0):
+                if k in allowed:
+                    return True
+                if k in getattr(F, "absorbed_fns", {}):
+                    return True  # already inlined into its callers for this analysis: the inlined copies are checked under the callers' names
+                if k in KNOWN_FNS or depth > 3 or F.fns.get(k, {}).get("vis") == "public":
+                    return False
+                cs_ = set()
+                for name in (k, strip_impl(k)):
+                    for (c_, _bi) in F.callers.get(name, []):
+                        cs_.add(re.sub(r"(::\{closure#\d+\})+$", "", c_))
+                cs_.discard(k)
+                return bool(cs_) and all(_on_behalf(c_, depth + 1) for c_ in cs_)
+            still = [k for k in extra if not _on_behalf(k)]
+            if len(still) < len(extra):
+                self.notes.append("%s: new functions called only from inside the allowed set act on its behalf: %s" % (rid, sorted(set(extra) - set(still))))
+            extra = still
         ok = True
         locs = sorted({loc(F.fns[k]["blocks"][bi]["term"]) for v in sites.values() for (k, bi) in v})
         if floor_sites is not None and nsites < floor_sites:
